@@ -134,6 +134,7 @@ def run(mod, prop, tier, replay=None, dev=False):
         for tname, tr, imap in traces:
             shards = vlib.split_file(tr, 12, sc.sub("shards-" + tname), is_begin=lambda l: mod.begin_marker in l)
             total = sum(1 for _ in open(tr))
+            os.remove(tr)   # the shards are the trace (disk space)
             before = nlines
 
             def val(sh):
